@@ -16,4 +16,5 @@ struct verif_ti { char* vt; char* name; };
 void __VERIF_unmodelled_virtual(void);
 void __VERIF_memcpy(char*, char*, uint64_t); void __VERIF_memmove(char*, char*, uint64_t);
 char* __VERIF_base_of_gen(char* ti);
+void __VERIF_resume(char* obj);
 #endif
